@@ -453,6 +453,8 @@ META = (META[0] + " " + META_EXTRA, META[1])
 def run(chk, tier):
     from ..rules import params as _PR
     _PR.check(chk, D.load("checks"), ['_strings/from_integer', '_strings/to_integer', '_charconv/', '_string/to_string', '_cstdlib/'], floor=8)
+    from ..rules import iters as _ITX
+    _ITX.reverse_index_area(chk, D.load("checks"), ['_strings/from_integer', '_strings/to_integer', '_charconv/', '_string/to_string', '_string/sto', '_cstdlib/'])      # IT4i: downward index scans reach index 0
     db = D.load("plain")
     bound_rule(chk, db)
     map_rule(chk, db)
